@@ -56,7 +56,9 @@ RULE = ("streams: (trees-qc) random operation trees over {+,-,x,/,neg,number+,nu
         "geometries (incl. prescribed dihedral angles around 0, +-90, 180 degrees and near-linear bends) x random atom "
         "assignments x non-unit coefficients: value/derivative/second_derivative vs finite differences, exact zeros for "
         "uninvolved atoms, symmetry, rigid-motion invariance, placement vs the Coq model; (idpp, cconf) energy vs "
-        "gradient by finite differences and vs the Coq pair model; (cpp) stationarity of the C++ minimisers' results; "
+        "gradient by finite differences (step scaled to the closest pair) and vs the Coq pair model - on ordinary images, on "
+        "images with one pair swept over 0.27, 0.3, 0.4, 0.48, 0.52, 0.7, 1, 1.6, 2.5, 4, 6 A, on crowded middle images of "
+        "interpolations in which two atoms pass within 0.3-0.9 A of each other, and on expanded geometries; (cpp) stationarity of the C++ minimisers' results; "
         "(triples) translated lambda triples vs DifferentiableMath; (singular) a small malformed stream of singular "
         "geometries whose outcome is only histogrammed. distinct = distinct generated case keys per stream")
 
@@ -136,9 +138,9 @@ class FD:
         elif j == "unstable":
             self.unstable += 1
 
-    def gradient(self, f, x, g, idxs=None, wrap=False, what="first derivative"):
+    def gradient(self, f, x, g, idxs=None, wrap=False, what="first derivative", h=H1):
         for i in (range(len(x)) if idxs is None else idxs):
-            self.entry(what, [int(i)], g[i], central(f, x, i, H1, wrap), central(f, x, i, 2 * H1, wrap), TOL1)
+            self.entry(what, [int(i)], g[i], central(f, x, i, h, wrap), central(f, x, i, 2 * h, wrap), TOL1)
 
     def hessian_from_gradient(self, gf, x, Hm, idxs=None, what="second derivative (difference of the first derivative)"):
         idxs = list(range(len(x))) if idxs is None else list(idxs)
@@ -837,6 +839,79 @@ def dist_matrix(X):
     return np.linalg.norm(X[:, None] - X[None], axis=-1)
 
 
+def min_pair_distance(X):
+    X = np.asarray(X, float).reshape(-1, 3)
+    if len(X) < 2:
+        return 1.0
+    return float((dist_matrix(X) + 1e9 * np.eye(len(X))).min())
+
+
+def fd_step(X):
+    """Central-difference step scaled to the closest pair: the pair terms behave like r^-4 ... r^-10, so the relative
+    truncation error (h/r)^2 and the relative round-off eps*r/h are both kept near 1e-10 / 1e-11."""
+    return H1 * min(1.0, min_pair_distance(X))
+
+
+# pair distances swept by the pair-potential streams (Angstrom): compressed, around 0.5, bonded, long range
+PAIR_SWEEP = [0.27, 0.3, 0.4, 0.48, 0.52, 0.7, 1.0, 1.6, 2.5, 4.0, 6.0]
+
+
+def geometry_with_pair(rs, n, d, floor=0.25):
+    """Random geometry of n atoms in which atoms (0,1)-permuted pair (i, j) is exactly d apart and every other pair is
+    at least `floor` apart.  -> (X, i, j)"""
+    for _ in range(400):
+        X = rand_geometry(rs, n, dmin=0.6) * rs.choice([0.6, 1.0, 1.0, 1.8])
+        if n == 1:
+            return X, 0, 0
+        i, j = rs.choice(n, 2, replace=False)
+        u = rs.normal(size=3)
+        u /= np.linalg.norm(u)
+        X[j] = X[i] + d * u
+        D = dist_matrix(X) + 1e9 * np.eye(n)
+        D[i, j] = D[j, i] = 1e9
+        if D.min() >= floor:
+            return X, int(i), int(j)
+    raise RuntimeError("geometry_with_pair")
+
+
+def idpp_case_specs(ctx, rs, full):
+    """Yield (tag, list of image coordinate arrays, image index, wanted_for_coq)."""
+    rng = ctx.rng
+    # (a) ordinary, well separated images
+    for c in range(40 if full else 5):
+        n, nimg = (3 if c == 0 else rng.choice([2, 3, 4, 5])), rng.choice([2, 3, 4, 6])
+        coords = [rand_geometry(rs, n) for _ in range(nimg)]
+        yield "ordinary", coords, (1 if nimg > 2 else rng.randrange(nimg)), c == 0
+    # (b) one pair of the evaluated image at a prescribed distance, swept from compressed to long range
+    for rep in range(8 if full else 1):
+        for d in PAIR_SWEEP:
+            dd = d * (1.0 + (rs.uniform(-0.04, 0.04) if rep else 0.0))
+            coq = rep == 0 and d in (0.4, 0.52)
+            n, nimg = (3 if coq else rng.choice([2, 3, 4, 5])), rng.choice([3, 4, 5])
+            coords = [rand_geometry(rs, n) for _ in range(nimg)]
+            k = rng.randrange(1, nimg)
+            coords[k], _, _ = geometry_with_pair(rs, n, dd)
+            yield f"pair-at-{d}", coords, k, coq
+    # (c) crowded middle images of a linear interpolation in which two atoms pass close to each other (H3-type exchange)
+    for rep in range(6 if full else 1):
+        for delta in (0.3, 0.45, 0.6, 0.9):
+            nimg = rng.choice([3, 5, 7])
+            extra = 0 if (rep == 0 and delta == 0.45) else rng.choice([0, 1, 2])
+            first = np.array([[0.0, 0, 0], [1.0, 0, 0], [2.0, delta, 0]] + [list(rs.uniform(-3, 3, 3) + [0, 3.5, 0]) for _ in range(extra)])
+            last = first.copy()
+            last[1], last[2] = [2.0, 0, 0], [1.0, delta, 0]
+            jit = rs.normal(scale=0.02, size=first.shape) if rep else 0.0
+            coords = [first + q * (last - first) / (nimg - 1) + (jit if 0 < q < nimg - 1 else 0.0) for q in range(nimg)]
+            mid = (nimg - 1) // 2
+            for k in sorted({mid, max(1, mid - 1)}):
+                if min_pair_distance(coords[k]) >= 0.25:
+                    yield f"interpolated-crossing-{delta}", coords, k, (rep == 0 and delta == 0.45 and k == mid and extra == 0)
+    # (d) expanded geometries
+    for c in range(12 if full else 2):
+        n, nimg = rng.choice([2, 3, 4]), rng.choice([3, 4])
+        yield "expanded", [rand_geometry(rs, n) * rs.uniform(2.0, 3.5) for _ in range(nimg)], 1, False
+
+
 def check_idpp_case(IDPP, imgs_coords, k, want_model=True):
     n = imgs_coords[0].shape[0]
     imgs = [SimpleNamespace(name=f"img{q}", coordinates=np.array(c, float)) for q, c in enumerate(imgs_coords)]
@@ -848,10 +923,40 @@ def check_idpp_case(IDPP, imgs_coords, k, want_model=True):
     def f(y):
         return float(idpp(SimpleNamespace(name=im.name, coordinates=y.reshape(n, 3))))
     fd = FD()
-    fd.gradient(f, x0, G.flatten(), what="IDPP.grad")
+    fd.gradient(f, x0, G.flatten(), what="IDPP.grad", h=fd_step(x0))
     info = {"X": im.coordinates.tolist(), "C": np.array(idpp._req_distance_matrix(im)).tolist(),
             "R": np.array(idpp._distance_matrix(im)).tolist(), "E": E, "G": G.tolist(), "n": n}
     return fd, info
+
+
+def cconf_case_specs(ctx, rs, full):
+    rng = ctx.rng
+    for c in range(40 if full else 5):
+        yield "ordinary", rand_geometry(rs, 3 if c == 0 else rng.choice([2, 3, 4, 5, 6])), None, c == 0
+    for rep in range(8 if full else 1):
+        for d in PAIR_SWEEP:
+            dd = d * (1.0 + (rs.uniform(-0.04, 0.04) if rep else 0.0))
+            coq = rep == 0 and d in (0.3, 0.7)
+            X, i, j = geometry_with_pair(rs, 3 if coq else rng.choice([2, 3, 4, 5]), dd)
+            yield f"pair-at-{d}", X, (i, j), coq
+    for c in range(12 if full else 2):
+        yield "expanded", rand_geometry(rs, rng.choice([2, 3, 4])) * rs.uniform(2.0, 3.5), None, False
+
+
+def check_cconf_case(cconf_gen, X, bm, d0, kk, cc, ex, fixed=None):
+    n = len(X)
+    x0 = np.asarray(X, float).flatten()
+    empty = np.array([], dtype=int)
+    f = lambda y: float(cconf_gen.v(y, bm, kk, d0, cc, ex))   # noqa: E731
+    G = np.array(cconf_gen.dvdr(x0, bm, kk, d0, cc, ex, empty), float)
+    fd = FD()
+    fd.gradient(f, x0, G, what="cconf_gen.dvdr", h=fd_step(x0))
+    if fixed is not None:
+        Gf = np.array(cconf_gen.dvdr(x0, bm, kk, d0, cc, ex, fixed), float).reshape(n, 3)
+        free = [i for i in range(n) if i not in set(fixed.tolist())]
+        if np.any(Gf[fixed] != 0.0) or not np.array_equal(Gf[free], G.reshape(n, 3)[free]):
+            fd.bad.append({"what": "dvdr with fixed atoms is not the gradient with the fixed rows zeroed", "fixed": fixed.tolist()})
+    return fd, f(x0), G
 
 
 def stream_pairs(ctx, full):
@@ -860,62 +965,61 @@ def stream_pairs(ctx, full):
     nfind = 0
     terms, descr = [], []
     rs = np.random.RandomState(ctx.rng.randrange(2 ** 31))
-    for c in range(150 if full else 8):
-        n = ctx.rng.choice([2, 3, 4, 5])
-        nimg = ctx.rng.choice([2, 3, 4, 6])
-        coords = [rand_geometry(rs, n) for _ in range(nimg)]
-        k = ctx.rng.randrange(nimg)
-        if k in (0,) and nimg > 2:
-            k = 1            # image 0 has r^k = r identically: trivial
-        rep = {"kind": "idpp", "images": [c_.tolist() for c_ in coords], "k": k}
-        ctx.count("idpp", (n, nimg, k, coords[0].round(5).tolist()), sample={"n_atoms": n, "n_images": nimg, "image": k})
+    ncoq = 0
+    for tag, coords, k, want_coq in idpp_case_specs(ctx, rs, full):
+        n, nimg = coords[0].shape[0], len(coords)
+        rmin = min_pair_distance(coords[k])
+        rep = {"kind": "idpp", "images": [np.asarray(c_).tolist() for c_ in coords], "k": k, "tag": tag, "closest_pair": rmin}
+        ctx.count("idpp", (tag, n, nimg, k, np.asarray(coords[k]).round(5).tolist()),
+                  sample={"tag": tag, "n_atoms": n, "n_images": nimg, "image": k, "closest_pair": round(rmin, 3)})
+        ctx.hist("idpp", tag.split("-at-")[0].split("-crossing-")[0] + (" r<0.5" if rmin < 0.5 else ""))
         fd, info = check_idpp_case(IDPP, coords, k)
         if fd.unstable:
             ctx.hist("idpp", "fd-unstable-entries-skipped")
         if fd.bad:
             rep["failures"] = fd.bad[:6]
-            nfind += report(ctx, "idpp|grad-vs-call", f"IDPP with {n} atoms, image {k} of {nimg}: grad entry {fd.bad[0]['index']} = "
-                            f"{fd.bad[0]['analytic']!r}, finite difference of __call__ = {fd.bad[0]['finite_difference']!r}", rep)
-        if n <= (4 if full else 3) and sum(1 for d_ in descr if d_['kind'] == 'idpp') < (30 if full else 3):
+            nfind += report(ctx, "idpp|grad-vs-call", f"IDPP with {n} atoms, image {k} of {nimg} [{tag}, closest pair {rmin:.3f} A]: grad entry "
+                            f"{fd.bad[0]['index']} = {fd.bad[0]['analytic']!r}, finite difference of __call__ = "
+                            f"{fd.bad[0]['finite_difference']!r}", rep)
+        if n <= (4 if full else 3) and (want_coq or (full and ncoq < 40)):
+            ncoq += 1
             terms.append(f"check_idpp {n} {qc_mat(info['X'])} {qc_mat(info['C'])} {qc_mat(info['R'])} {qc(info['E'])} {qc_mat(info['G'])}")
             descr.append(rep)
-            ctx.count("pairs-qc", ("idpp", n, nimg, k, coords[0].round(5).tolist()))
-    empty = np.array([], dtype=int)
-    for c in range(150 if full else 8):
-        n = ctx.rng.choice([2, 3, 4, 5, 6])
-        X = rand_geometry(rs, n)
+            ctx.count("pairs-qc", ("idpp", tag, n, nimg, k, np.asarray(coords[k]).round(5).tolist()))
+    ncoq = 0
+    for tag, X, pair, want_coq in cconf_case_specs(ctx, rs, full):
+        n = len(X)
         bm = np.zeros((n, n), dtype=np.intc)
         for i in range(n):
             for j in range(i):
                 bm[i, j] = bm[j, i] = ctx.rng.choice([0, 0, 1, 1, 2])
+        if pair is not None and pair[0] != pair[1]:
+            bm[pair[0], pair[1]] = bm[pair[1], pair[0]] = ctx.rng.choice([0, 1, 2])   # the swept pair: free, bonded or fixed
         d0 = rs.uniform(0.9, 2.0, size=(n, n))
         d0 = (d0 + d0.T) / 2
         kk, cc, ex = ctx.rng.choice([0.5, 1.0, 2.5]), ctx.rng.choice([0.01, 0.3, 0.8]), ctx.rng.choice([2, 4, 8])
-        x0 = X.flatten()
-        f = lambda y: float(cconf_gen.v(y, bm, kk, d0, cc, ex))   # noqa: E731
-        G = np.array(cconf_gen.dvdr(x0, bm, kk, d0, cc, ex, empty), float)
-        rep = {"kind": "cconf", "coords": X.tolist(), "bond_matrix": bm.tolist(), "d0": d0.tolist(), "k": kk, "c": cc, "exponent": ex}
-        ctx.count("cconf", (n, kk, cc, ex, X.round(5).tolist()), sample={"n_atoms": n, "k": kk, "c": cc, "exponent": ex})
-        fd = FD()
-        fd.gradient(f, x0, G, what="cconf_gen.dvdr")
+        rmin = min_pair_distance(X)
         fixed = np.array(sorted(ctx.rng.sample(range(n), ctx.rng.randrange(0, n))), dtype=int)
-        Gf = np.array(cconf_gen.dvdr(x0, bm, kk, d0, cc, ex, fixed), float).reshape(n, 3)
-        free = [i for i in range(n) if i not in set(fixed.tolist())]
-        if np.any(Gf[fixed] != 0.0) or not np.array_equal(Gf[free], G.reshape(n, 3)[free]):
-            fd.bad.append({"what": "dvdr with fixed atoms is not the gradient with the fixed rows zeroed", "fixed": fixed.tolist()})
+        rep = {"kind": "cconf", "coords": np.asarray(X).tolist(), "bond_matrix": bm.tolist(), "d0": d0.tolist(), "k": kk, "c": cc,
+               "exponent": ex, "tag": tag, "closest_pair": rmin}
+        ctx.count("cconf", (tag, n, kk, cc, ex, np.asarray(X).round(5).tolist()),
+                  sample={"tag": tag, "n_atoms": n, "k": kk, "c": cc, "exponent": ex, "closest_pair": round(rmin, 3)})
+        ctx.hist("cconf", tag.split("-at-")[0] + (" r<0.5" if rmin < 0.5 else ""))
+        fd, E, G = check_cconf_case(cconf_gen, X, bm, d0, kk, cc, ex, fixed)
         if fd.unstable:
             ctx.hist("cconf", "fd-unstable-entries-skipped")
         if fd.bad:
             rep["failures"] = fd.bad[:6]
-            nfind += report(ctx, "cconf|dvdr-vs-v", f"cconf_gen with {n} atoms, exponent {ex}: {fd.bad[0]['what']} "
+            nfind += report(ctx, "cconf|dvdr-vs-v", f"cconf_gen with {n} atoms, exponent {ex} [{tag}, closest pair {rmin:.3f} A]: {fd.bad[0]['what']} "
                             f"{json.dumps({k_: v_ for k_, v_ in fd.bad[0].items() if k_ != 'what'})}", rep)
-        if n <= (4 if full else 3) and sum(1 for d_ in descr if d_['kind'] == 'cconf') < (30 if full else 3):
+        if n <= (4 if full else 3) and (want_coq or (full and ncoq < 40)):
+            ncoq += 1
             Km = np.where(bm == 1, kk, np.where(bm == 2, 10.0, 0.0))
             Cm = np.full((n, n), cc)
-            terms.append(f"check_ff {n} {ex} {qc_mat(X.tolist())} {qc_mat(Cm.tolist())} {qc_mat(Km.tolist())} {qc_mat(d0.tolist())} "
-                         f"{qc_mat(dist_matrix(X).tolist())} {qc(f(x0))} {qc_mat(G.reshape(n, 3).tolist())}")
+            terms.append(f"check_ff {n} {ex} {qc_mat(np.asarray(X).tolist())} {qc_mat(Cm.tolist())} {qc_mat(Km.tolist())} {qc_mat(d0.tolist())} "
+                         f"{qc_mat(dist_matrix(np.asarray(X)).tolist())} {qc(E)} {qc_mat(G.reshape(n, 3).tolist())}")
             descr.append(rep)
-            ctx.count("pairs-qc", ("cconf", n, kk, cc, ex, X.round(5).tolist()))
+            ctx.count("pairs-qc", ("cconf", tag, n, kk, cc, ex, np.asarray(X).round(5).tolist()))
     return nfind, terms, descr
 
 
@@ -1159,11 +1263,8 @@ def replay(ctx, obj):
         bad = fd.bad
     elif kind == "cconf":
         import cconf_gen
-        bm, d0 = np.array(r["bond_matrix"], dtype=np.intc), np.array(r["d0"], float)
-        x0 = np.array(r["coords"], float).flatten()
-        f = lambda y: float(cconf_gen.v(y, bm, r["k"], d0, r["c"], r["exponent"]))   # noqa: E731
-        fd = FD()
-        fd.gradient(f, x0, np.array(cconf_gen.dvdr(x0, bm, r["k"], d0, r["c"], r["exponent"], np.array([], dtype=int)), float))
+        fd, _, _ = check_cconf_case(cconf_gen, np.array(r["coords"], float), np.array(r["bond_matrix"], dtype=np.intc),
+                                    np.array(r["d0"], float), r["k"], r["c"], r["exponent"])
         bad = fd.bad
     else:
         print("replay: this replay names a proof obligation / correspondence stream; re-run ./check C07 to re-evaluate it")
